@@ -102,7 +102,7 @@ class CliConstraints(Stream):
         fails = []
         a, b = r["plain"], r["with_options"]
         if b["exception"]:
-            return [("C02/cli-traceback-with-constraint-options", {"exception": b["exception"], "stderr": b["stderr_tail"]})]
+            return [("C02/cli-traceback", {"exception": b["exception"], "stderr": b["stderr_tail"]})]
         if a["code"] == 0:
             # closure from the inputs, computed on the universe with the pins found
             U = {}
@@ -113,11 +113,17 @@ class CliConstraints(Stream):
                 for t in rs:
                     q = GL.P(t)
                     todo.append((GL.norm(q.name), set(q.extras)))
+            # "the extras requested of that distribution by anyone in the solve": projects solved only for the constraint
+            # file are in the solve too (at a version the output does not show) - every extra any requirement of the
+            # universe, the inputs or the constraint file asks of a project is allowed to have been requested
             extras_req = {}
+            for t in [t for rs in case["inputs"] for t in rs] + list(case["cons_lines"]) + \
+                    [t for vs in case["universe"].values() for rs in vs.values() for t in rs]:
+                q = GL.P(t)
+                extras_req.setdefault(GL.norm(q.name), set()).update(q.extras)
             while todo:
                 k, ex = todo.pop()
-                new = ex - extras_req.get(k, set())
-                if k in reach and not new:
+                if k in reach:
                     continue
                 reach.add(k)
                 extras_req.setdefault(k, set()).update(ex)
